@@ -365,7 +365,7 @@ PLANS = {
                                              + fns((0,), more_out=(True,), syms=("SX" if sum(c["id"].encode()) % 2 else "MX",))},
                 quick=dict(n=3, m=3, variants=3, generic=1, corners=1, rand=30),
                 thorough=dict(n=4, m=4, variants=2, generic=1, corners=3, rand=300)),
-    "C17": dict(rel=rel_C17, traj=True, want={"np": True, "fn": fns((0,), more_out=(True,))},
+    "C17": dict(rel=rel_C17, traj=True, derive=("detour",), want={"np": True, "fn": fns((0,), more_out=(True,))},
                 quick=dict(n=3, m=3, variants=2, generic=1, corners=13, rand=60),
                 thorough=dict(n=4, m=5, variants=1, generic=1, corners=13, rand=600)),
 }
